@@ -1371,6 +1371,25 @@ func gen(c *lib.Ctx, rng *rand.Rand) []c08case {
 	add(c08case{Group: "licence", Req: c08req{Kind: "router", Method: "POST", URL: "/eccp.json", Body: []byte(`{"kids":["` + b64(kidForeign) + `"]}`)}, Expect: "4xx", Why: "key id that livesim2 did not issue"})
 	add(c08case{Group: "licence", Req: c08req{Kind: "router", Method: "POST", URL: "/anything", Body: []byte(`{"kids":["` + b64(kidOK) + `"]}`)}, Expect: "4xx", Why: "not a licence URL"})
 
+	// servers built with unusual but accepted ServerConfig values: every endpoint must still answer
+	// deliberately (the request limiter sees the same client three times)
+	{
+		names := []string{"maxreq-neg", "maxreq-neg-big", "maxreq-1", "maxreq-1-int0", "maxreq-2-intneg", "maxreq-whitelist", "maxreq-white-bad", "maxreq-log", "maxreq-log-bad",
+			"timeout-neg", "timeout-1", "livewindow-0", "livewindow-neg", "host-set", "playurl-empty", "playurl-bad", "repdata-write", "repdata-missing", "port-0-loglevel-x"}
+		eps := [][2]string{{"GET", "/reqcount"}, {"GET", "/"}, {"GET", "/healthz"}, {"GET", "/config"}, {"GET", "/version"}, {"GET", "/assets"}, {"GET", "/vod"},
+			{"GET", "/livesim2/testpic_2s/Manifest.mpd?nowMS=100000"}, {"GET", "/livesim2/testpic_2s/V300/45.m4s?nowMS=100000"}, {"GET", "/livesim2/testpic_2s/V300/45.m4s?nowMS=100000"},
+			{"GET", "/reqcount"}, {"GET", "/vod/testpic_2s/Manifest.mpd"}, {"GET", "/vod/testpic_2s/V300/1.m4s"}, {"GET", "/urlgen/"}, {"GET", "/urlgen/create?asset=testpic_2s&mpd=Manifest.mpd&stl=nr"},
+			{"GET", "/urlgen/mpds?asset=testpic_2s"}, {"GET", "/urlgen/drms?asset=testpic_2s"}, {"GET", "/static/time.txt"}, {"HEAD", "/static/time.txt"}, {"GET", "/metrics"},
+			{"GET", "/patch/livesim2/segtimeline_1/patch_60/testpic_2s/Manifest.mpp?publishTime=1970-01-01T00:01:30Z&nowMS=100000"}, {"GET", "/api/cmaf-ingests/1"}, {"OPTIONS", "/livesim2/testpic_2s/Manifest.mpd"},
+			{"HEAD", "/livesim2/testpic_2s/Manifest.mpd?nowMS=100000"}, {"POST", "/livesim2/eccp_cenc/testpic_2s/eccp.json"}, {"GET", "/reqcount"}, {"GET", "/favicon.ico"}, {"GET", "/nosuch"}}
+		for _, n := range names {
+			for _, ep := range eps {
+				cs = append(cs, c08case{Group: "server-config", Expect: "deliberate", Why: "endpoint on a server configured as " + n,
+					Req: c08req{Kind: "cfg", Cfg: n, Method: ep[0], URL: ep[1], Body: []byte(`{"kids":[]}`)}})
+				c.Count("server-config")
+			}
+		}
+	}
 	// 6. the receiver's upload handler
 	cs = append(cs, genReceiver(c, rng)...)
 	// 7. a step-wise CMAF-ingest session through the API, in order, on the sequential worker (last:
@@ -1892,10 +1911,12 @@ func runC08(c *lib.Ctx) error {
 	t0 := time.Now()
 	// the receiver keeps state per channel: its requests go to one worker, in order; all other
 	// requests are independent and are spread over several workers (hangs then overlap)
-	var recvIdx, otherIdx []int
+	var recvIdx, cfgIdx, otherIdx []int
 	for i, cs := range cases {
 		if cs.Req.Kind == "recv" || cs.Req.Kind == "apiseq" || cs.Req.Kind == "liveseq" || cs.Req.Kind == "routerseq" {
 			recvIdx = append(recvIdx, i)
+		} else if cs.Req.Kind == "cfg" { // servers with their own configuration (and limiter state): one worker, in order
+			cfgIdx = append(cfgIdx, i)
 		} else {
 			otherIdx = append(otherIdx, i)
 		}
@@ -1929,8 +1950,9 @@ func runC08(c *lib.Ctx) error {
 		mu.Unlock()
 	}
 	const nWorkers = 8
-	wg.Add(1)
+	wg.Add(2)
 	go runList(recvIdx)
+	go runList(cfgIdx)
 	for k := 0; k < nWorkers; k++ {
 		var part []int
 		for j := k; j < len(otherIdx); j += nWorkers {
